@@ -431,7 +431,7 @@ func scaleSpecs(c *Config) []scaleSpec {
 			scaleSpec{shape: "desc", cf: h24, n: 10000, v: 2, again: "short"},
 			scaleSpec{shape: "onetick", cf: h30d, n: 10000, v: 3, again: "short"},
 			scaleSpec{shape: "period", cf: h1, n: 100000, k: 4097, v: 1, again: "short"},
-			scaleSpec{shape: "period", cf: h1, n: 100000, k: 65535, v: 0, again: "short"},
+			scaleSpec{shape: "period", cf: h1, n: 30000, k: 65535, v: 0, again: "short"},
 			scaleSpec{shape: "branches", cf: h1, n: 10000, k: 3, v: 1, again: "short"},
 			scaleSpec{shape: "branches", cf: h1, n: 1000, k: 100, v: 2, again: "short"},
 			scaleSpec{shape: "chain", cf: h24, n: 3000, v: 0, again: "short"},
